@@ -16,6 +16,7 @@ C11.e the parent-tree cursor advances only past names that sort before the curre
 import re
 from rules.common import *
 
+TECHNIQUE = ("static analysis over rustc MIR: evaluation of the parent-match predicate under 'field differs' (through closures / helper fns / early returns), quantifier and receiver of the reuse guard, argument-wiring lint, cursor discipline by CFG rules")
 LEVEL = "other"
 EXPLANATION = (
     "Field-coverage and guard rules over archiver/parent.rs and commands/backup.rs, decided from resolved field "
